@@ -54,6 +54,8 @@ module Nat :
 
   val max : nat -> nat -> nat
 
+  val min : nat -> nat -> nat
+
   val divmod : nat -> nat -> nat -> nat -> nat * nat
 
   val div : nat -> nat -> nat
@@ -513,6 +515,8 @@ val write_bitstring_g :
 val read_bits_bs_g : (bool -> bs -> bs * unit res) -> nat -> bs -> bs * bs res
 
 val read_remaining_bs_g : (bool -> bs -> bs * unit res) -> bs -> bs * bs
+
+val set_bit : nat -> bool -> bs -> bs * unit res
 
 val copy_bs : bs -> bs
 
@@ -992,6 +996,8 @@ val read_lim : nat -> bits -> (n * bits) res
 
 val load_label0 : nat -> nat -> bits -> (bits * bits) res
 
+val load_label_size : nat -> bits -> (n * bits) res
+
 val vdec_res :
   (bits -> cell0 list -> 'a1 option) -> bits -> cell0 list -> 'a1 res
 
@@ -1062,6 +1068,21 @@ val hstep :
 val hdecode :
   (bits -> cell0 list -> 'a1 option) -> bool -> nat -> (bits * 'a1) list ->
   cell0 -> (bits * 'a1) list * bool
+
+val count_leafs : nat -> cell0 -> n res
+
+val count_leafs_e : nat -> cell0 -> n res
+
+val map_inner_aug :
+  (bits -> cell0 list -> 'a2 option) -> (bits -> cell0 list ->
+  (('a1 * bits) * cell0 list) option) -> nat -> nat -> cell0 -> bits ->
+  (bits * 'a2) list res
+
+val decode_aug_e :
+  (bits -> cell0 list -> 'a2 option) -> (bits -> cell0 list ->
+  (('a1 * bits) * cell0 list) option) -> nat -> cell0 -> (bits * 'a2) list res
+
+val clone_subset : bits list -> (bits * 'a1) list -> (bits * 'a1) list
 
 val venc_val : n -> bits * cell0 list
 
@@ -1140,6 +1161,30 @@ val libs_sx : sx list -> (bits * cell0) list option
 
 val run_dec : sx -> sx
 
+val run_count : sx -> sx
+
+val run_lsize : sx -> sx
+
+val xdec_u32 : bits -> cell0 list -> ((n * bits) * cell0 list) option
+
+val run_aug : sx -> sx
+
+val venc_cref : n -> bits * cell0 list
+
+val vdec_cref : bits -> cell0 list -> n option
+
+val cfg_marshal : (bits * n) list -> cell0 res
+
+val cfg_decode : cell0 -> (bits * n) list res
+
+val keys_sx : sx list -> bits list
+
+val nth_state : n -> (bits * n) list list -> (bits * n) list
+
+val run_cfg_steps : (bits * n) list list -> sx list -> sx list
+
+val run_cfg : sx -> sx
+
 type strategy =
 | BestPing
 | FirstWorking
@@ -1167,6 +1212,9 @@ val better : nat -> conn -> (nat * z) option -> (nat * z) option
 
 val find_best_ping :
   n -> conn list -> nat -> (nat * z) option -> (nat * z) option
+
+val update_best2 :
+  strategy -> conn list -> conn list -> nat option -> nat option
 
 val update_best : strategy -> conn list -> nat option -> nat option
 
@@ -1264,7 +1312,7 @@ type label =
 | LRUnlock
 | LTick
 | LUpdLock
-| LUpdDone of (bool * z) list
+| LUpdDone of (bool * z) list * n list
 | LSubWant of nat
 | LSubLock of nat
 | LSubBody of nat
@@ -1293,6 +1341,8 @@ val mk_conns : nat -> (nat -> n) -> (bool * z) list -> conn list
 
 val coalesce : msg -> msg list -> msg
 
+val first_read : (nat -> n) -> n list -> nat -> n
+
 val step0 :
   strategy -> bool -> bool -> nat -> (nat -> n) -> state -> label -> state
   option
@@ -1303,7 +1353,11 @@ val strat_of : n -> strategy
 
 val conn_of : sx -> conn option
 
+val conn1_of : sx -> conn option
+
 val conns_of : sx list -> conn list option
+
+val conns1_of : sx list -> conn list option
 
 val prev_of : sx -> nat option option
 
@@ -1683,6 +1737,8 @@ val nominal_now : z
 
 val run_genpayload : sx -> sx
 
+val run_expire : sx -> sx
+
 val run_clock : sx -> sx
 
 type result =
@@ -1778,6 +1834,8 @@ val init_state0 : state0
 
 val init_state_without_pinger : state0
 
+val effective_deadline : nat -> nat option -> nat
+
 val small0 : n -> nat
 
 val qid : nat -> n
@@ -1792,10 +1850,17 @@ val finish_call : nat -> state0 -> nat -> state0 option
 
 val finish_all : nat -> nat -> state0 -> nat -> state0 option
 
-val outcomes : nat -> state0 -> sx
+val ctx_of : nat -> (nat * n) list -> n option
+
+val expiry : n -> string
+
+val out_result_ctx : (nat * n) list -> nat -> call_pc -> sx
+
+val start_labels : nat -> label0 list
 
 val interp :
-  nat -> nat -> sx list -> state0 -> sx list -> (state0 * sx list) option
+  nat -> nat -> sx list -> state0 -> sx list -> (nat * n) list ->
+  ((state0 * sx list) * (nat * n) list) option
 
 val run_script : sx -> sx
 
@@ -1841,6 +1906,16 @@ val event : nat -> state0 -> sx -> state0 option
 val events : nat -> state0 -> sx list -> nat -> sx
 
 val run_seq0 : sx -> sx
+
+val all_healthy : nat -> state0 -> bool
+
+val recover :
+  nat -> nat -> state0 -> nat -> nat -> ((state0 * nat) * nat) option
+
+val auth_acts :
+  nat -> sx list -> state0 -> nat -> nat -> sx list -> (sx list * nat) option
+
+val run_auth : sx -> sx
 
 type ctree =
 | CT of bits * ctree list
@@ -2468,6 +2543,8 @@ val group_by_sender : nat -> (n list * n list) list -> sx list
 val run_conc0 : sx -> sx
 
 val run_stress : sx -> sx
+
+val run_magic : sx -> sx
 
 val arrivals_of : string -> sx list -> arrival list
 
@@ -3315,6 +3392,8 @@ val print_bitstring : bits -> str
 
 val print_bitstring_bs : bs -> str res
 
+val read_bs : bits -> bits -> bits -> bs res
+
 val written_bs : bits -> nat -> bs
 
 val parse_bitstring : str -> bits res
@@ -3853,6 +3932,8 @@ type yty =
 | YHashed of yty
 | YRefRaw of yty
 | YNoLib of yty
+| YPeek of nat * yty * yty
+| YOpenStruct of yty list
 
 val sub_slice : xtree -> bool -> ys option
 
@@ -3908,9 +3989,15 @@ val decode_length : bytes -> (n * bytes) res
 
 val process_query_answer : bool -> bytes -> bytes res
 
+val max_server_nonce : n
+
+val auth_nonce : bytes -> bytes res
+
 val max_packet : n
 
 val parse_packet0 : (bytes -> bytes) -> bytes -> ((bytes * bytes) * n) res
+
+val magic_type0 : bytes -> n res
 
 val vmstack_after_tl_gen :
   (node list -> nat -> unit res) -> bool -> bytes -> unit res
@@ -3926,6 +4013,23 @@ val parse_contract_methods :
 val account_from_proof :
   (node list -> nat -> unit res) -> nat -> nat -> nat option -> bytes -> unit
   res
+
+val mAGIC_TCP_PONG : n
+
+val mAGIC_TCP_AUTH_NONCE : n
+
+val mAGIC_ADNL_ANSWER : n
+
+type ract =
+| RConsumed
+| RAuth
+| RForward
+
+val conn_reader_step_gen : bool -> bytes -> ract res
+
+val conn_reader_step : bytes -> ract res
+
+val client_reader_step : bool -> bytes -> bytes option res
 
 val tl_bindings : bindings
 
@@ -3968,6 +4072,8 @@ val run_answer : sx -> sx
 val cls : 'a1 res -> sx
 
 val run_answer2 : sx -> sx
+
+val run_reader : sx -> sx
 
 val run_packet : sx -> sx
 
@@ -4019,6 +4125,24 @@ val val_block_id : n -> n -> n -> value0
 val val_block_id_ext : n -> n -> n -> bytes1 -> bytes1 -> value0
 
 val hand_vmstack_unframe : bytes1 -> bytes1 res * st
+
+val lc_encode_length : n -> bytes1
+
+val lc_align : bytes1 -> bytes1
+
+val lc_decode_length : bytes1 -> (n * bytes1) res
+
+val magic_adnl_query : n
+
+val magic_adnl_answer : n
+
+val magic_ls_wait : n
+
+val lc_request_payload : bytes1 -> bytes1 -> bytes1
+
+val lc_process_answer : bytes1 -> bytes1 res
+
+val lc_wait_prefix : n -> n -> bytes1
 
 val tl_types : decl list
 
@@ -4105,6 +4229,20 @@ val hand_blockidext : sx list -> sx
 val hand_vmstack : sx list -> sx
 
 val run_hand : sx -> sx
+
+val run_lclen : sx -> sx
+
+val run_lcdec : sx -> sx
+
+val run_lcalign : sx -> sx
+
+val zeros0 : bytes1
+
+val run_adnlreq : sx -> sx
+
+val wait_block_value : n -> value0
+
+val run_wait0 : sx -> sx
 
 val boc_size_limit : z
 
@@ -4285,7 +4423,7 @@ val default_lifetime_ns : z
 
 val lifetime_of : z option -> z
 
-val expiry : z -> z -> z
+val expiry0 : z -> z -> z
 
 val api_create_message_body :
   (cell -> bytes res) -> ('a1 -> bytes -> bits) -> wallet -> 'a1 -> z -> z ->
@@ -4392,6 +4530,12 @@ val internal_ct : transfer -> ctree res
 
 val internal_msg : transfer -> rawmsg res
 
+val deploy_stateinit : ctree -> ctree -> ctree
+
+val deploy_transfer :
+  (cell -> bytes res) -> z -> ctree option -> ctree option -> ctree option ->
+  n -> transfer res
+
 val internal_msgs : transfer list -> rawmsg list res
 
 val comment_body : bytes -> ctree
@@ -4438,9 +4582,9 @@ val run_send : sx -> sx
 
 val opt_ct : sx -> ctree option option
 
-val transfer_of_sx : sx -> transfer option
+val transfer_of_sx : sx -> transfer res option
 
-val transfers_of_sx : sx list -> transfer list option
+val transfers_of_sx : sx list -> transfer list res option
 
 val run_body : sx -> sx
 
@@ -4552,6 +4696,7 @@ type wop =
 | OMutate of cell
 | OAddress
 | ONext of acct
+| ORekey of bits
 
 type wans =
 | AInit of cell res
@@ -4650,6 +4795,12 @@ val run_built_key : sx -> sx
 val parsed_row : node list -> imm res list -> nat -> sx
 
 val run_parsed : sx -> sx
+
+val frombits_logical : bits -> nat -> nat -> n -> bits option
+
+val run_frombits : sx -> sx
+
+val run_json0 : sx -> sx
 
 val first_byte : bits -> n
 
